@@ -56,7 +56,21 @@ fn work_main(env: &mut VEnv, args: Vec<Field>) -> BuiltinFuture<'_> {
     })
 }
 
+/// `burst N`: writes N bytes (lines of nine `x` and a newline) to its standard output.
+fn burst_main(env: &mut VEnv, args: Vec<Field>) -> BuiltinFuture<'_> {
+    Box::pin(async move {
+        use yash_env::system::concurrency::WriteAll as _;
+        let n = args.first().and_then(|f| f.value.parse::<usize>().ok()).unwrap_or(0);
+        let data: Vec<u8> = (0..n).map(|i| if i % 10 == 9 { b'\n' } else { b'x' }).collect();
+        match env.system.write_all(yash_env::io::Fd::STDOUT, &data).await {
+            Ok(()) => ExitStatus::SUCCESS.into(),
+            Err(_) => ExitStatus::FAILURE.into(),
+        }
+    })
+}
+
 pub fn install(env: &mut VEnv) {
+    env.builtins.insert("burst", Builtin::new(Type::Mandatory, burst_main));
     env.builtins.insert("work", Builtin::new(Type::Mandatory, work_main));
 }
 
@@ -820,6 +834,7 @@ enum NCmd {
     AsyncWait(Vec<NCmd>),
     Subst(Vec<NCmd>),
     Exit(i32),
+    Burst(usize),
 }
 
 fn nlist_coq(l: &[NCmd]) -> String {
@@ -838,6 +853,7 @@ fn ncmd_coq(c: &NCmd) -> String {
         NCmd::AsyncWait(b) => format!("(NAsyncWait {})", nlist_coq(b)),
         NCmd::Subst(b) => format!("(NSubst {})", nlist_coq(b)),
         NCmd::Exit(st) => format!("(NExit {})", coq::n(*st as u64)),
+        NCmd::Burst(n) => format!("(NBurst {})", coq::nat(*n)),
     }
 }
 
@@ -857,12 +873,13 @@ fn ncmd_sh(c: &NCmd) -> String {
         NCmd::AsyncWait(b) => format!("{{ {}; }} & wait $!", nlist_sh(b)),
         NCmd::Subst(b) => format!("v=$( {} )", nlist_sh(b)),
         NCmd::Exit(st) => format!("exit {st}"),
+        NCmd::Burst(n) => format!("burst {n}"),
     }
 }
 
 fn count_procs(c: &NCmd) -> usize {
     match c {
-        NCmd::Work(..) | NCmd::Exit(_) => 0,
+        NCmd::Work(..) | NCmd::Exit(_) | NCmd::Burst(_) => 0,
         NCmd::Sub(b) | NCmd::AsyncWait(b) | NCmd::Subst(b) => 1 + b.iter().map(count_procs).sum::<usize>(),
         NCmd::Pipe(ms, _) => ms.iter().map(|m| 1 + m.iter().map(count_procs).sum::<usize>()).sum(),
     }
@@ -894,6 +911,27 @@ fn gen_ncmd(r: &mut Rng, depth: usize) -> NCmd {
         7..=8 => NCmd::AsyncWait(gen_nbody(r, depth - 1)),
         _ => NCmd::Subst(gen_nbody(r, depth - 1)),
     }
+}
+
+/// A pipeline whose producers write more than anybody reads: the consumers
+/// (commands that never read their input) exit early, so the producers must get
+/// EPIPE -- which requires the shell to have closed its own copies of the pipe
+/// ends before it waits.
+fn gen_early_exit_pipe(r: &mut Rng) -> NCmd {
+    let k = 2 + r.below(3);
+    let sizes = [5000usize, 3000, 1025, 1024, 2049, 100];
+    let mut ms: Vec<Vec<NCmd>> = vec![vec![NCmd::Burst(*r.pick(&sizes))]];
+    for i in 1..k {
+        let last = i == k - 1;
+        if !last && r.chance(1, 3) {
+            ms.push(vec![NCmd::Burst(*r.pick(&sizes))]);
+        } else if r.chance(1, 2) {
+            ms.push(vec![NCmd::Exit(*r.pick(&[0, 5, 9]))]);
+        } else {
+            ms.push(gen_nbody(r, 1));
+        }
+    }
+    NCmd::Pipe(ms, false)
 }
 
 fn stream_n_case(w: &mut CasesWriter, cmds: &[NCmd], pk: usize, seed: u64) {
@@ -939,6 +977,9 @@ fn stream_n_case(w: &mut CasesWriter, cmds: &[NCmd], pk: usize, seed: u64) {
     );
     let procs: usize = cmds.iter().map(count_procs).sum();
     w.count(&format!("N.processes:{}", if procs >= 12 { "12+".to_string() } else { format!("{}", procs / 3 * 3) }));
+    if script.contains("burst") {
+        w.count("N.script:early-exiting consumer");
+    }
     let key = if procs >= 3 { Some(format!("N:{script}:{name}")) } else { None };
     w.push(&term, &json, &[], key);
 }
@@ -1237,13 +1278,30 @@ fn main() {
         }
     }
 
+    // producers larger than the pipe, consumers that exit without reading
+    for (ci, cmds) in [
+        vec![NCmd::Pipe(vec![vec![NCmd::Burst(5000)], vec![NCmd::Exit(5)]], false)],
+        vec![NCmd::Pipe(vec![vec![NCmd::Burst(3000)], vec![NCmd::Work(0, 0)]], false)],
+        vec![NCmd::Pipe(vec![vec![NCmd::Burst(5000)], vec![NCmd::Work(1, 3)], vec![NCmd::Work(0, 6)]], false)],
+        vec![NCmd::Pipe(vec![vec![NCmd::Burst(5000)], vec![NCmd::Burst(4000)], vec![NCmd::Exit(7)]], false)],
+        vec![NCmd::Pipe(vec![vec![NCmd::Burst(2049)], vec![NCmd::Work(2, 1)], vec![NCmd::Burst(3000)], vec![NCmd::Work(0, 9)]], false)],
+    ]
+    .iter()
+    .enumerate()
+    {
+        for pk in 0..5 {
+            stream_n_case(&mut w, cmds, pk, 100 + ci as u64);
+        }
+    }
+
     // nested process trees against the sequential reference
     let nn = args.scale(60, 1200);
     for k in 0..nn {
         let mut r = rng.fork(10_000_000 + k as u64);
         let n = 1 + r.below(4);
         // the pipefail option is inherited by every subshell: one setting per script
-        let pf = r.chance(1, 3);
+        let early = r.chance(1, 3);
+        let pf = !early && r.chance(1, 3);
         fn set_pf(c: &mut NCmd, pf: bool) {
             match c {
                 NCmd::Pipe(ms, f) => {
@@ -1262,13 +1320,20 @@ fn main() {
                 _ => {}
             }
         }
-        let cmds: Vec<NCmd> = (0..n)
+        let mut cmds: Vec<NCmd> = (0..n)
             .map(|_| {
-                let mut c = gen_ncmd(&mut r, 3);
+                let mut c = gen_ncmd(&mut r, if early { 2 } else { 3 });
                 set_pf(&mut c, pf);
                 c
             })
             .collect();
+        if early {
+            let at = r.below(cmds.len() + 1);
+            cmds.insert(at, gen_early_exit_pipe(&mut r));
+            if r.chance(1, 2) {
+                cmds.push(NCmd::Sub(vec![gen_early_exit_pipe(&mut r), NCmd::Exit(4)]));
+            }
+        }
         let nsched = args.scale(3, 5);
         for j in 0..nsched {
             let pk = if j == 0 { 0 } else if j == 1 { 1 } else { 2 + r.below(3) };
